@@ -254,6 +254,15 @@ func serveGuards(c *core.Ctx) {
 
 	// (2) every exit: implementation called at most once; rejecting exits write the right status
 	isWriteHeader := func(call *ast.CallExpr) (int64, bool) {
+		// http.Error(w, msg, code) / http.NotFound write a status directly as well
+		if callee := astx.Callee(info, call); astx.IsPkgFunc(callee, "net/http", "Error") && len(call.Args) == 3 {
+			if v, ok := astx.ConstInt(info, call.Args[2]); ok {
+				return v, true
+			}
+			return -1, true
+		} else if astx.IsPkgFunc(callee, "net/http", "NotFound") {
+			return 404, true
+		}
 		if !isIfaceMethodCall(info, call, "ResponseWriter", "WriteHeader") || len(call.Args) != 1 {
 			return 0, false
 		}
